@@ -71,6 +71,28 @@ def build(rng, treelike, like=None):
             if any(len(set(vs) & set(m[0])) > 1 for m in motifs):
                 continue
             motifs.append((sorted(vs), [(vs[a], vs[b]) for a, b in sh]))
+    if rng.random() < 0.4:
+        # islands: further components on vertices of their own - closed ones without any vertex of degree one (a triangle, a 4-cycle, K4, two
+        # triangles sharing a vertex) next to open ones (a single edge, a tadpole): a network need not be connected, and whether a component
+        # has leaves says nothing about the others
+        base = G.number_of_nodes()
+        for isl in rng.sample(["closed", "closed", "open", "closed2"], rng.randint(1, 3)):
+            if isl == "closed":
+                sh = rng.choice([SHAPES[1], SHAPES[2], SHAPES[4]])
+                k = 1 + max(itertools.chain(*sh))
+                vs = list(range(base, base + k)); base += k
+                motifs.append((sorted(vs), [(vs[a], vs[b]) for a, b in sh]))
+            elif isl == "closed2":
+                vs = list(range(base, base + 5)); base += 5
+                motifs.append((sorted(vs[:3]), [(vs[0], vs[1]), (vs[1], vs[2]), (vs[0], vs[2])]))
+                motifs.append((sorted(vs[2:]), [(vs[2], vs[3]), (vs[3], vs[4]), (vs[2], vs[4])]))
+            else:
+                sh = rng.choice([SHAPES[0], SHAPES[9]])
+                k = 1 + max(itertools.chain(*sh))
+                vs = list(range(base, base + k)); base += k
+                motifs.append((sorted(vs), [(vs[a], vs[b]) for a, b in sh]))
+        G.add_nodes_from(range(base))
+        build.islands = getattr(build, "islands", 0) + 1
     ids = rng.sample(range(100), len(motifs))
     if rng.random() < 0.2:
         # motif ids are arbitrary integers: 64-bit ids that differ only in their low bits (time-stamp << 22 | sequence number)
